@@ -58,6 +58,13 @@ fn table() -> Vec<Prop> {
         assumptions: &["ExtensionsMap::other is left empty, as the property states", "no oracle beyond the library's own == / Hash / Ord"],
     },
     Prop {
+        id: "C09",
+        run: props::c09::run,
+        replay: props::c09::replay,
+        rule: props::c09::RULE,
+        assumptions: &["metamorphic: no reference implementation; the AST transforms only reorder / repeat the parts the property lists and flip case / separators"],
+    },
+    Prop {
         id: "C10",
         run: props::c10::run,
         replay: props::c10::replay,
@@ -65,11 +72,39 @@ fn table() -> Vec<Prop> {
         assumptions: &["the model normalises arguments with the reference recognisers of harness/src/model.rs", "a `true` value is dropped by setters exactly as by the parser", "maximize/minimize steps use the JSON-built likely-subtags reference; where C06 allows either answer the library's is adopted after checking that it keeps the given subtags and fills all three"],
     },
     Prop {
+        id: "C11",
+        run: props::c11::run,
+        replay: props::c11::replay,
+        rule: props::c11::RULE,
+        assumptions: &["the expected result is the property's formula evaluated on what the getters expose"],
+    },
+    Prop {
+        id: "C12",
+        run: props::c12::run,
+        replay: props::c12::replay,
+        rule: props::c12::RULE,
+        assumptions: &["std DefaultHasher::new() (fixed keys) is the hash probe", "ExtensionsMap::other stays empty"],
+    },
+    Prop {
+        id: "C13",
+        run: props::c13::run,
+        replay: props::c13::replay,
+        rule: props::c13::RULE,
+        assumptions: &["differential between LanguageIdentifier and Locale entry points; the reference model only selects the well-formed locale strings for clause 2"],
+    },
+    Prop {
         id: "C15",
         run: props::c15::run,
         replay: props::c15::replay,
         rule: props::c15::RULE,
         assumptions: &["reference predicates transcribe the UTS #35 EBNF productions quoted in the property"],
+    },
+    Prop {
+        id: "C17",
+        run: props::c17::run,
+        replay: props::c17::replay,
+        rule: props::c17::RULE,
+        assumptions: &["the unsafe from_raw_unchecked calls are sound because every integer comes from a valid subtag of the same type"],
     },
     ]
 }
